@@ -11,7 +11,7 @@ TECH = "contract-based deductive verification: pyvc AST->VC generator + z3 (side
 META["C01"] = {
   "text": "SupervisedOPF.fit, _find_prototypes, Subgraph.__init__/_build (with Node.__init__ and all property setters inlined) and the whole heap are under contract; the Dijkstra-style invariants (monotone removal, Bellman closure over all ordered pairs, predecessor attains max(cost(pred), d), label inherited, conquest order = inverse of a ghost rank, sorted by cost) are inductive and every obligation generated from the real source is discharged by z3 for all training-set sizes, label assignments, tie patterns, both weight sources (metric / pre-computed matrix through idx). The postcondition is the property statement: closure + attainment + acyclicity by strictly earlier predecessor + permutation sorted by cost.",
   "design_ref": "DESIGN.md §3 C01",
-  "note": "Trusted: VC generator, z3, float order modelled over reals (only max/compare/copy on costs), weights as uninterpreted DFN/PRE with the statement's hypotheses as preconditions, cardinality lemmas by emitted induction queries; the final step from (closure, attainment along an acyclic predecessor chain) to 'minimum over all paths' is a two-line pencil argument.",
+  "note": "Trusted: VC generator, z3, float order modelled over reals (only max/compare/copy on costs), weights as uninterpreted DFN/PRE with the statement's hypotheses as preconditions, cardinality lemmas by emitted induction queries; the final step from (closure, attainment along an acyclic predecessor chain) to 'minimum over all walks from a prototype of the largest arc' is the theorem optimum_path_cost of lemmas/OptimumPath.lean (Lean 4 + Mathlib), re-checked by `lean` on every run.",
   "technique": TECH}
 META["C02"] = {
   "text": "SupervisedOPF._find_prototypes is under a contract that states Prim's certificate on the real loop, with ghost state only (removal rank and its inverse, a witness arc per prototype, a same-class prototype per removed node): the key of a queued node is its lightest arc to the removed set and pred is the other end; every tree arc was a lightest arc across the cut {removed earlier} | {rest}; prototypes are exactly the endpoints of tree arcs joining different labels; every class met has a prototype. The invariants are inductive and all obligations generated from the real source (heap calls by contract, index safety, frame) are discharged by z3 for all sizes, labelings and tie patterns. Posts: spanning tree rooted at node 0 with rank-decreasing predecessors, cut certificate, prototype <=> boundary endpoint (both directions), a prototype of every class. fit / semi-supervised fit keep each prototype at cost 0, predecessor NIL, own label (proved, C01/C15 invariants).",
